@@ -49,7 +49,7 @@ static unsigned char *hex2bytes(const char *s, size_t *len)
   size_t n, i; unsigned char *b;
   if (!strcmp(s, "-")) { *len = 0; return (unsigned char *)calloc(1, 1); }
   n = strlen(s) / 2;
-  b = (unsigned char *)malloc(n + 1);
+  b = (unsigned char *)malloc(n ? n : 1);   /* exact size: a read one byte past the input is seen by ASan */
   for (i = 0; i < n; i++) {
     unsigned v; sscanf(s + 2 * i, "%2x", &v); b[i] = (unsigned char)v;
   }
